@@ -13,6 +13,8 @@ mod runner;
 mod scen;
 mod vq;
 mod world;
+mod zoo;
+mod devices;
 
 use runner::Tier;
 
